@@ -4,7 +4,7 @@ turns (real function text from /repo) + (contract data from /verif) into Verus i
 import os
 import re
 
-from rsx import (Undecided, Edit, tokenize, match_close, find_item, strip_logging, fix_visibility, strip_cfg_feature,
+from rsx import (alpha_back, Undecided, Edit, tokenize, match_close, find_item, strip_logging, fix_visibility, strip_cfg_feature,
                  _body_open_index, loop_positions, closure_positions, loop_body_open, find_token_seq, stmt_end,
                  OPEN, CLOSE)
 
@@ -97,6 +97,23 @@ class Fn:
             if inj.clause is not None:
                 out.append(inj.clause)
         return out
+
+
+_SHAPES = None
+
+
+def shape_key(f):
+    return f"{f.src}::{f.impl or ''}::{f.name}"
+
+
+def shape_of(f):
+    """the text of this function at the time the annotations were written (units/shapes.json, written by ./check --census)"""
+    global _SHAPES
+    if _SHAPES is None:
+        import json as _j
+        pth = os.path.join(os.path.dirname(os.path.dirname(os.path.abspath(__file__))), "units", "shapes.json")
+        _SHAPES = _j.load(open(pth)) if os.path.exists(pth) else {}
+    return _SHAPES.get(shape_key(f))
 
 
 class TypeItem:
@@ -864,6 +881,13 @@ def annotate_fn(f, override_requires=None, canary=False, drop_body=False):
     text = it.text
     meta = {"key": f.key, "src": f.src, "line": it.line, "sha256": it.sha256, "mode": f.mode,
             "impl_header": it.impl_header, "rules": []}
+    ref = shape_of(f)
+    if ref is not None and ref != text:
+        ren = alpha_back(ref, text)
+        if ren is not None:
+            # R23 ALPHA: same tokens up to a consistent renaming of locals (and whitespace / comments): verified in the annotated shape
+            text = ref
+            meta["rules"].append("R23 ALPHA" + ("(" + ", ".join(f"{n}->{o}" for n, o in sorted(ren.items())) + ")" if ren else "(layout only)"))
     text = fix_visibility(text)
     text, ncfg = strip_cfg_feature(text)
     if ncfg:
